@@ -510,6 +510,11 @@ pub enum BranchShape {
 /// Every list of 1..=b recursive branches x operator assignment x subset of operator tokens declared
 /// `right` x atom set {A} / {A, L e R}. Rule 0 `s: e;` rule 1 `e`.
 pub fn pratt_family(b: usize, optoks: usize, f: &mut dyn FnMut(&Grammar)) {
+    pratt_family_atoms(b, optoks, &[0, 1], f)
+}
+
+/// `atom_variants`: 0 = atoms {A}, 1 = atoms {A, L e R}
+pub fn pratt_family_atoms(b: usize, optoks: usize, atom_variants: &[usize], f: &mut dyn FnMut(&Grammar)) {
     let ops: Vec<usize> = (1..=optoks).collect();
     let l = optoks + 1;
     let r = optoks + 2;
@@ -556,10 +561,11 @@ pub fn pratt_family(b: usize, optoks: usize, f: &mut dyn FnMut(&Grammar)) {
         optoks: usize,
         l: usize,
         r: usize,
+        atom_variants: &[usize],
         f: &mut dyn FnMut(&Grammar),
     ) {
         if !idx.is_empty() {
-            for atoms in 0..2 {
+            for &atoms in atom_variants {
                 let mut alts: Vec<Rx> = idx.iter().map(|i| branches[*i].clone()).collect();
                 alts.push(tok(0));
                 if atoms == 1 {
@@ -590,11 +596,11 @@ pub fn pratt_family(b: usize, optoks: usize, f: &mut dyn FnMut(&Grammar)) {
         }
         for i in 0..nb {
             idx.push(i);
-            rec(depth + 1, b, nb, idx, branches, optoks, l, r, f);
+            rec(depth + 1, b, nb, idx, branches, optoks, l, r, atom_variants, f);
             idx.pop();
         }
     }
-    rec(0, b, nb, &mut idx, &branches, optoks, l, r, f);
+    rec(0, b, nb, &mut idx, &branches, optoks, l, r, atom_variants, f);
 }
 
 // ---------------------------------------------------------------------------------------------
@@ -664,6 +670,10 @@ pub fn pred_family(b: &EbnfBound, k: usize) -> Vec<Grammar> {
 /// CHOICE: EBNF shapes with ordered choice enabled that contain exactly one ordered choice, plus every
 /// placement of <= k items of {~, &, !1}
 pub fn choice_family(b: &EbnfBound, k: usize) -> Vec<Grammar> {
+    choice_family_ops(b, k, &[Rx::Commit, Rx::Return, Rx::Assert(1)])
+}
+
+pub fn choice_family_ops(b: &EbnfBound, k: usize, ops: &[Rx]) -> Vec<Grammar> {
     let mut out = vec![];
     let mut bb = *b;
     bb.cfg.choice = true;
@@ -675,7 +685,7 @@ pub fn choice_family(b: &EbnfBound, k: usize) -> Vec<Grammar> {
             }
         });
         if n == 1 && g.fully_productive() {
-            out.extend(insert_up_to(g, &[Rx::Commit, Rx::Return, Rx::Assert(1)], k));
+            out.extend(insert_up_to(g, ops, k));
         }
     });
     out
